@@ -17,6 +17,19 @@ impl Scratch {
         let base = std::env::var("VERIF_SCRATCH").map(PathBuf::from).unwrap_or_else(|_| {
             if Path::new("/dev/shm").is_dir() { PathBuf::from("/dev/shm") } else { std::env::temp_dir() }
         });
+        // scratch left behind by processes that were killed (their Drop never ran)
+        if let Ok(rd) = fs::read_dir(&base) {
+            for e in rd.filter_map(|e| e.ok()) {
+                let name = e.file_name().to_string_lossy().into_owned();
+                if let Some(rest) = name.strip_prefix("vcheck-") {
+                    if let Some(pid) = rest.split('-').next().and_then(|p| p.parse::<u32>().ok()) {
+                        if !Path::new(&format!("/proc/{pid}")).exists() {
+                            let _ = fs::remove_dir_all(e.path());
+                        }
+                    }
+                }
+            }
+        }
         let root = base.join(format!("vcheck-{}-{tag}", std::process::id()));
         let _ = fs::remove_dir_all(&root);
         fs::create_dir_all(&root).expect("create scratch dir");
